@@ -1097,7 +1097,22 @@ reg(Prop("C05", "Pseudo-legality test accepts exactly the moves the generator em
                     rule="uci.parseUCIMove on byte strings: texts of generated moves, promotion-suffix variants, random "
                          "squares, one-byte mutations (letters beyond h, digits 0/9, upper case, bytes that wrap in uint8), "
                          "random bytes of length 0..7, fixed strings; judge: a returned move is a generated move, the text of "
-                         "a generated move is accepted; distinct by (FEN, string)")],
+                         "a generated move is accepted; distinct by (FEN, string)"),
+          StreamCfg("c05s", 320, 12000, judge="judge_c05s",
+                    rule="SESSION: one long-lived board object per case; a search-like walk of MakeMove / UndoMove / MakeNullMove / "
+                         "UndoNullMove (<= 24 operations, op format of mkseq plus a no-question flag) and after every operation, "
+                         "and at every step of the final unwinding, the property verbatim TWICE in a row on that same object: all "
+                         "32768 encodings through IsPseudoLegal, GenNoisy+GenNotNoisy, all 32768 encodings again (model: "
+                         "fast_accepted on the model board after the same operations; judge: on every valid reported board accepted "
+                         "= generated = accepted again). 27 roots with castling rights (both sides able to castle, one wing blocked / "
+                         "attacked, partial rights), 35 % random castling placements, the rest play-outs; null moves biased to nodes "
+                         "where a castling move is generated and undone right away; state carried by the board across questions "
+                         "(caches) is visible only here; non-trivial = walk contains a null move; distinct by (FEN, walk)"),
+          StreamCfg("c11seq", 800, 40000, judge="judge_c11seq",
+                    rule="SESSION at the GUI gate (stream shared with C11): sequences of 3..5 `position` commands on ONE in-process "
+                         "uci.Driver, each command also alone on a fresh driver; a move list that stops at a refused move, the same "
+                         "command repeated / extended afterwards: the board after every command must be the one a fresh driver sets "
+                         "up, i.e. only moves that passed parseUCIMove's IsPseudoLegal gate in the current position were played")],
          trusted=["hook board/export_verif.go (VerifSnapshot/VerifRestore: positions are handed to the engine as boards)",
                   "hook uci/export_verif.go (VerifParseUCIMove calls the unexported parseUCIMove)",
                   "Model/Att.v uses the geometric slider/leaper definitions; that the engine's magic tables compute them is property C12"],
